@@ -23,8 +23,9 @@ impl Huge {
     /// 2: dense prefix of 2^20 bits, then ones at prescribed huge gaps
     pub fn new(j: u64) -> Huge {
         let delta = [65usize, 4097, 0, 1, 64, (1 << 31) + 12345][(j / 5) as usize % 6];
-        let pattern = if j >= 1000 { 5 } else { j % 5 };
+        let pattern = if j >= 2000 { 6 } else if j >= 1000 { 5 } else { j % 5 };
         let len = match pattern {
+            6 => (1usize << 32) + (1 << 17) + [0usize, 77, 4096, 1 << 20][(j / 4) as usize % 4],
             5 => (1usize << 33) + (1 << 30) + 7 + (j as usize % 3) * 64,
             3 => (1usize << 33) + (1 << 20),
             4 => (1usize << 34) + 77,
@@ -80,6 +81,35 @@ impl Huge {
                 }
                 for p in [(1usize << 32) + 5, (1usize << 32) + 700, (1usize << 33) + 3, (1usize << 33) + 64, (1usize << 33) + 65, (1usize << 33) + 500, (1usize << 33) + 1000, (1usize << 33) + 70_000, len - 1] {
                     set(&mut words, p);
+                }
+            }
+            6 => {
+                // inventory entries of mixed span classes followed by an entry spanning more than 2^32 bits:
+                // optionally a dense run (16-bit spans), then 4096*c + 1 + e ones at a stride that makes each
+                // entry of 4096 ones span 2^16..2^21 bits (32-bit subinventories), then an empty tail
+                let k = j - 2000;
+                let stride = [32usize, 17, 100, 500, 16, 511][k as usize % 6];
+                let c = 1 + (k / 6) as usize % 2;
+                let extra = [0usize, 1, 300, 4095][(k / 12) as usize % 4];
+                let mut p = 0usize;
+                if k % 3 == 2 {
+                    for _ in 0..8192 {
+                        set(&mut words, p);
+                        p += 1 + (next() as usize % 2);
+                    }
+                }
+                for _ in 0..4096 * c + 1 + extra {
+                    set(&mut words, p);
+                    p += stride;
+                }
+                if k % 2 == 1 {
+                    set(&mut words, len - 1);
+                }
+                if (k / 2) % 2 == 1 {
+                    // complement: the same shape for the zero selectors
+                    for w in words.iter_mut() {
+                        *w = !*w;
+                    }
                 }
             }
             5 => {
@@ -202,7 +232,7 @@ impl Huge {
             }
         }
         // for sparse vectors: every rank
-        if count <= 3000 {
+        if count <= 20_000 {
             v.extend(0..count);
         }
         let mut x = seed | 1;
@@ -216,12 +246,24 @@ impl Huge {
     }
 }
 
+/// Set by C12: run every query but do not compare answers (only the process
+/// outcome is judged there, and a wrong answer must not stop the queries).
+pub static OUTCOME_ONLY: std::sync::atomic::AtomicBool = std::sync::atomic::AtomicBool::new(false);
+
+fn outcome_only() -> bool {
+    OUTCOME_ONLY.load(std::sync::atomic::Ordering::Relaxed)
+}
+
 pub fn check_rank<T: Rank + RankZero + NumBits + BitLength>(cx: &mut Ctx, name: &str, s: &T, h: &Huge, seed: u64) -> R {
     let l = cx.must("len", || BitLength::len(s))?;
     cx.check_eq(l, h.len, "len", || format!("{name}: len()"))?;
     let n1 = cx.must("num_ones", || s.num_ones())?;
     cx.check_eq(n1, h.num_ones, "num_ones", || format!("{name}: num_ones() on {} bits", h.len))?;
     for p in h.positions(seed) {
+        if outcome_only() {
+            cx.any(|| (s.rank(p), s.rank_zero(p)));
+            continue;
+        }
         let r = cx.must("rank", || s.rank(p))?;
         let want = h.rank(p);
         cx.check_eq(r, want, "rank", || format!("{name}: rank({p}) on a vector of {} bits", h.len))?;
@@ -233,6 +275,10 @@ pub fn check_rank<T: Rank + RankZero + NumBits + BitLength>(cx: &mut Ctx, name: 
 
 pub fn check_select<T: Select + NumBits>(cx: &mut Ctx, name: &str, s: &T, h: &Huge, seed: u64) -> R {
     for r in h.ranks(h.num_ones, seed) {
+        if outcome_only() {
+            cx.any(|| s.select(r));
+            continue;
+        }
         let got = cx.must("select", || s.select(r))?;
         cx.check_eq(got, h.select(r), "select", || format!("{name}: select({r}) with {} ones on {} bits", h.num_ones, h.len))?;
     }
@@ -241,6 +287,10 @@ pub fn check_select<T: Select + NumBits>(cx: &mut Ctx, name: &str, s: &T, h: &Hu
 
 pub fn check_select_zero<T: SelectZero + NumBits>(cx: &mut Ctx, name: &str, s: &T, h: &Huge, seed: u64) -> R {
     for r in h.ranks(h.len - h.num_ones, seed) {
+        if outcome_only() {
+            cx.any(|| s.select_zero(r));
+            continue;
+        }
         let got = cx.must("select_zero", || s.select_zero(r))?;
         cx.check_eq(got, h.select_zero(r), "select_zero", || format!("{name}: select_zero({r}) with {} zeros on {} bits", h.len - h.num_ones, h.len))?;
     }
@@ -283,6 +333,37 @@ pub fn select_case(cx: &mut Ctx, j: u64) -> R {
         b - a
     };
     cx.label_if(h.num_ones < 100 && maxgap > 1 << 32, "span>2^32");
+    if j >= 2000 {
+        // mixed span classes next to a 64-bit span
+        let complemented = ((j - 2000) / 2) % 2 == 1;
+        cx.label("mixed-spans");
+        if !complemented {
+            let s = cx.must("SelectAdaptConst", || SelectAdaptConst::<_, Box<[usize]>, 12, 3>::new(AddNumBits::from(bv.clone())))?;
+            check_select(cx, "SelectAdaptConst<12,3>", &s, &h, seed)?;
+            let s = cx.must("SelectAdaptConst", || SelectAdaptConst::<_, Box<[usize]>, 10, 2>::new(AddNumBits::from(bv.clone())))?;
+            check_select(cx, "SelectAdaptConst<10,2>", &s, &h, seed)?;
+            for (k, m) in [(12usize, 3usize), (11, 2), (13, 4), (12, 0)] {
+                let s = cx.must("SelectAdapt::with_inv", || SelectAdapt::with_inv(AddNumBits::from(bv.clone()), k, m))?;
+                check_select(cx, &format!("SelectAdapt::with_inv({k},{m})"), &s, &h, seed)?;
+            }
+            let s = cx.must("SelectSmall<2,9>", || SelectSmall::<2, 9, _>::new(RankSmall::<2, 9, _>::new(bv.clone())))?;
+            check_select(cx, "SelectSmall<2,9,RankSmall>", &s, &h, seed)?;
+            let s = cx.must("Select9", || Select9::new(Rank9::new(bv.clone())))?;
+            check_select(cx, "Select9", &s, &h, seed)?;
+        } else {
+            let z = cx.must("SelectZeroAdaptConst", || SelectZeroAdaptConst::<_, Box<[usize]>, 12, 3>::new(AddNumBits::from(bv.clone())))?;
+            check_select_zero(cx, "SelectZeroAdaptConst<12,3>", &z, &h, seed)?;
+            let z = cx.must("SelectZeroAdaptConst", || SelectZeroAdaptConst::<_, Box<[usize]>, 10, 2>::new(AddNumBits::from(bv.clone())))?;
+            check_select_zero(cx, "SelectZeroAdaptConst<10,2>", &z, &h, seed)?;
+            for (k, m) in [(12usize, 3usize), (11, 2), (13, 4)] {
+                let z = cx.must("SelectZeroAdapt::with_inv", || SelectZeroAdapt::with_inv(AddNumBits::from(bv.clone()), k, m))?;
+                check_select_zero(cx, &format!("SelectZeroAdapt::with_inv({k},{m})"), &z, &h, seed)?;
+            }
+            let z = cx.must("SelectZeroSmall<2,9>", || SelectZeroSmall::<2, 9, _>::new(RankSmall::<2, 9, _>::new(bv.clone())))?;
+            check_select_zero(cx, "SelectZeroSmall<2,9,RankSmall>", &z, &h, seed)?;
+        }
+        return Ok(());
+    }
     if j % 5 == 4 {
         // 64-bit spans: adaptive selectors with all-local and spilling parameters
         macro_rules! konst {
